@@ -14,19 +14,20 @@ from .common import (Budget, base_seed, match_known, parse_spec, spec_str, write
 
 SHAPE_KEYS = {
     "pool_sim": ["pattern", "workers", "tasks", "nested", "ymask"],
-    "blocks_sim": ["set", "maxn", "cut", "threads", "overhead"],
+    "blocks_sim": ["cold", "set", "maxn", "cut", "threads", "overhead"],
 }
 SCHED_KEYS = ["strategy", "pctd", "explen", "stickyden", "victim", "spur", "spurpm", "pcg", "pcgseed", "sseed"]
 
 
-def harness_argv(exe, harness, mode, base, first, count, catalogue):
+def harness_argv(exe, harness, mode, base, first, count, catalogue, cold=False):
     if harness == "pool_sim":
         if mode == "run":
             return [exe, "run", str(base), str(first), str(count)]
         return [exe, "one", str(base), str(first)]
+    tail = ["cold"] if cold else []
     if mode == "run":
-        return [exe, "run", str(base), str(first), str(count), str(catalogue)]
-    return [exe, "one", str(base), str(first), str(catalogue)]
+        return [exe, "run", str(base), str(first), str(count), str(catalogue)] + tail
+    return [exe, "one", str(base), str(first), str(catalogue)] + tail
 
 
 def replay_argv(exe, spec):
@@ -77,8 +78,8 @@ def same_class(a, b):
 
 
 class Part:
-    def __init__(self, harness, variant, runs, catalogue=48):
-        self.harness, self.variant, self.runs, self.catalogue = harness, variant, runs, catalogue
+    def __init__(self, harness, variant, runs, catalogue=48, cold=False):
+        self.harness, self.variant, self.runs, self.catalogue, self.cold = harness, variant, runs, catalogue, cold
 
 
 def minimise(exe, harness, spec, trace, cls, prop, budget, log):
@@ -177,8 +178,8 @@ def run_thread_check(prop, tier, parts, budget_s, design_ref, assumptions, real_
                 bad[0] += 1
 
         frac = (pi + 1) / (len(parts) + 0.6)
-        st = S.run_shards(lambda f, c, part=part, exe=exe: harness_argv(exe, part.harness, "run", seed, f, c, part.catalogue),
-                          part.runs, on_record=on_record, deadline=budget.deadline(frac), hang_s=45,
+        st = S.run_shards(lambda f, c, part=part, exe=exe: harness_argv(exe, part.harness, "run", seed, f, c, part.catalogue, part.cold),
+                          part.runs, chunk=(1 if part.cold else None), on_record=on_record, deadline=budget.deadline(frac), hang_s=45,
                           should_stop=lambda bad=bad: bad[0] >= 400)
         part_info.append({"harness": part.harness, "variant": part.variant, "requested_runs": part.runs, "supervisor": st})
         for rec in lock_recs:
@@ -247,7 +248,7 @@ def run_thread_check(prop, tier, parts, budget_s, design_ref, assumptions, real_
         for stt in starts:
             if budget.left() < 5:
                 break
-            S.run_shards(lambda f, c, part=part: harness_argv(part.exe, part.harness, "run", seed, f, c, part.catalogue),
+            S.run_shards(lambda f, c, part=part: harness_argv(part.exe, part.harness, "run", seed, f, c, part.catalogue, part.cold),
                          per, nworkers=1, first_index=stt, chunk=per, on_record=on2, hang_s=45,
                          deadline=budget.deadline(0.9))
         for rec in recs2:
@@ -267,7 +268,7 @@ def run_thread_check(prop, tier, parts, budget_s, design_ref, assumptions, real_
         if not sig_by_run[pi]:
             continue
         for run in sorted(sig_by_run[pi].keys())[:2]:
-            rc, recs, out, err = S.run_one(harness_argv(part.exe, part.harness, "one", seed, run, 1, part.catalogue))
+            rc, recs, out, err = S.run_one(harness_argv(part.exe, part.harness, "one", seed, run, 1, part.catalogue, part.cold))
             for r in recs:
                 if "run" in r and "verdict" in r:
                     tr = r.get("trace", "")
@@ -294,7 +295,7 @@ def run_thread_check(prop, tier, parts, budget_s, design_ref, assumptions, real_
             known_hit.append(k.get("class", cls))
             continue
         # gate 1: same seed in a fresh process
-        rc, r1, out1, err1 = S.run_one(harness_argv(part.exe, part.harness, "one", seed, rec["run"], 1, part.catalogue), timeout=300)
+        rc, r1, out1, err1 = S.run_one(harness_argv(part.exe, part.harness, "one", seed, rec["run"], 1, part.catalogue, part.cold), timeout=300)
         v1, c1, full = outcome_of(rc, r1, err1, prop, part.harness)
         if not (v1 in ("violation", "died") and same_class(c1, cls)):
             unreproducible.append({"run": rec["run"], "class": cls, "rerun": [v1, c1]})
@@ -307,7 +308,7 @@ def run_thread_check(prop, tier, parts, budget_s, design_ref, assumptions, real_
             # death without a record (sanitizer): rebuild spec from a 'one' run is impossible; replay by seed
             spec = None
         replay = {"property": prop, "harness": part.harness, "variant": part.variant, "base_seed": seed, "run": rec["run"],
-                  "catalogue": part.catalogue, "expect": {"class": cls, "detail": (full or rec).get("detail", "")},
+                  "catalogue": part.catalogue, "cold": part.cold, "expect": {"class": cls, "detail": (full or rec).get("detail", "")},
                   "stderr_excerpt": (err1 or rec.get("stderr", ""))[-1500:]}
         if spec and trace_s is not None:
             tr = [int(x) for x in trace_s.split(":") if x != ""]
@@ -392,7 +393,7 @@ def replay_file(path):
     if rp.get("spec"):
         argv = replay_argv(exe, rp["spec"])
     else:
-        argv = harness_argv(exe, rp["harness"], "one", rp["base_seed"], rp["run"], 1, rp.get("catalogue", 48))
+        argv = harness_argv(exe, rp["harness"], "one", rp["base_seed"], rp["run"], 1, rp.get("catalogue", 48), rp.get("cold", False))
     rc, recs, out, err = S.run_one(argv, timeout=600)
     sys.stdout.write(out)
     if err:
